@@ -7,6 +7,7 @@ CONSTANTS
   DelimKinds = {}
   HostDelimKinds = {"nl", "c1", "R3", "a12", "a11"}
   WithNoop = TRUE
+  WithLim = TRUE
   Codecs = {"bytes"}
   PayAlpha = {}
   MaxPay = 0
@@ -27,5 +28,5 @@ CONSTANTS
   MaxErr = 0
   AfterDone = 0
 SPECIFICATION Spec
-INVARIANTS InRange PosInside NoPanicModuloKnown MeasureNonNeg
+INVARIANTS InRange PosInside NoPanicModuloKnown BuiltinNeverPoisoned MeasureNonNeg
 PROPERTIES Progress
